@@ -245,7 +245,7 @@ def apply_fault(arg, fault, target, op, Pm, want_shape):
         if isinstance(arg, Pm.Qube):
             vals = np.ones(bad + arg.item, dtype=np.asarray(arg._values_).dtype)
             return type(arg)(vals, drank=len(arg.denom)), True
-        if isinstance(arg, np.ndarray):
+        if isinstance(arg, np.ndarray) and arg.ndim > 0:        # a 0-d array stands for a number
             item = arg.shape[len(arg.shape) - len(x.item):] if x.item else ()
             return np.ones(bad + tuple(x.item), dtype=arg.dtype), True
         return arg, False
@@ -256,7 +256,7 @@ def apply_fault(arg, fault, target, op, Pm, want_shape):
         if isinstance(arg, Pm.Qube):
             vals = np.ones(bad + arg.item, dtype=np.asarray(arg._values_).dtype)
             return type(arg)(vals, drank=len(arg.denom)), True
-        if isinstance(arg, np.ndarray):
+        if isinstance(arg, np.ndarray) and arg.ndim > 0:        # a 0-d array stands for a number
             return np.ones(bad + tuple(x.item), dtype=arg.dtype), True
         return arg, False
     if fault == 'argmask':
